@@ -39,6 +39,10 @@ pub fn structural_alphabet() -> Alphabet {
         max_creations: 1,
         names: &["n"],
         values: &["v"],
+            chardata: &[],
+            chardata_extra: 0,
+            chardata_full: true,
+            attach_only: false,
     }
 }
 
@@ -57,7 +61,7 @@ impl Check for C12C {
             prop: "C12",
             docs,
             alphabet: structural_alphabet(),
-            monitors: Monitors { tree: true, spec: false, order: false },
+            monitors: Monitors { tree: true, spec: false, order: false, chardata: false, serial: false },
             frontier,
             expand: stage != format!("bfs{}", depth - 1),
             order_queries: &[],
